@@ -78,7 +78,10 @@ func (g *frGen) vv() uint64 {
 func (g *frGen) small() uint64 { return g.r.U64() & fv2 }
 
 func (g *frGen) dataLen() int {
-	return int(g.r.Pick(0, 1, 2, 62, 63, 64, 65, 126, 127, 128, 129, 300, 1000, 1451, 1452))
+	if g.r.Chance(1, 8) { // both sides of the pool-buffer threshold and the packet-size limit
+		return int(g.r.Pick(300, 1000, 1451, 1452))
+	}
+	return int(g.r.Pick(0, 1, 2, 62, 63, 64, 65, 126, 127, 128, 129))
 }
 
 func (g *frGen) cfg() frCfg {
